@@ -5,7 +5,8 @@ import Cellml.Tie.GraphBuild
 /-! # Ties of package Graph (C09, also C15): cellmlmanip/model.py `Model.graph`, `Model.graph_with_sympy_numbers`,
     `Model.get_equations_for` = the hand model `Cellml/C09/Model.lean`
 
-    * `Cellml.Tie.PGraph.graph_tie` (+ `graph_cached`, `graph_independent`)              — GraphBuild.lean
+    * `Cellml.Tie.PGraph.graph_tie`, `graph_tie_types` (+ `graph_cached`, `graph_independent`,
+      `graph_set_order_irrelevant`, `graph_types_equation_order`)                          — GraphBuild.lean
     * `Cellml.Tie.PGraph.graphNum_tie`, `graphNum_tie_built` (+ `graphNum_cached`, `graphNum_error`) — GraphNum.lean
     * `Cellml.Tie.PGraph.getEquationsFor_tie`                                              — GraphEqs.lean
 
